@@ -33,7 +33,12 @@ FILES = [
     "checker/func_checker.py",
     "checker/stmt_checker.py",
     "checker/expr_checker.py",
+    "compiler/expr_compiler.py",
 ]
+# Guppy's own node classes that stand for a grammar node without deriving from it (same field names)
+CUSTOM_ALIAS = {"DesugaredGenerator": "comprehension"}
+STAGE_OF = {"cfg/builder.py": "builder", "checker/func_checker.py": "checker", "checker/stmt_checker.py": "checker",
+            "checker/expr_checker.py": "checker", "compiler/expr_compiler.py": "compiler", "tys/parsing.py": "parsing"}
 NODES_FILE = "nodes.py"
 VISITORS = ["CFGBuilder", "ExprBuilder", "BranchBuilder", "StmtChecker", "ExprSynthesizer", "ExprChecker"]
 
@@ -97,6 +102,8 @@ class Analysis:
         self.visits = []
         self.forwards = set()
         self.generic = []
+        self.fn_stage = {}      # id(FunctionDef) -> stage
+        self.list_reads = set() # (stage, kind, field, whole | index | test)
         self._load()
 
     def _load(self):
@@ -107,6 +114,8 @@ class Analysis:
                     if isinstance(b, ast.Attribute) and isinstance(b.value, ast.Name) and b.value.id == "ast":
                         if b.attr in self.kinds and self.kinds[b.attr] in ("stmt", "expr") and b.attr in self.fields:
                             self.sub_of[n.name] = b.attr
+                if n.name in CUSTOM_ALIAS:
+                    self.sub_of[n.name] = CUSTOM_ALIAS[n.name]
         for rel in FILES:
             tree = ast.parse(open(os.path.join(self.root, rel)).read())
             top = list(tree.body)
@@ -116,11 +125,13 @@ class Analysis:
             for n in top:
                 if isinstance(n, ast.FunctionDef):
                     self.funcs[n.name] = (n, None)
+                    self.fn_stage[id(n)] = STAGE_OF.get(rel, "other")
                 elif isinstance(n, ast.ClassDef):
                     self.classes[n.name] = [ast.unparse(b) for b in n.bases]
                     for m in n.body:
                         if isinstance(m, ast.FunctionDef):
                             self.methods.setdefault((n.name, m.name), []).append(m)
+                            self.fn_stage[id(m)] = STAGE_OF.get(rel, "other")
 
     # ---- type expressions ---------------------------------------------------------------
     def ann_type(self, a):
@@ -266,6 +277,28 @@ class Analysis:
                 elif isinstance(n, ast.Match):
                     self._bind_match(n, typeof, env)
 
+        parent = {}
+        for n in ast.walk(fn):
+            for c in ast.iter_child_nodes(n):
+                parent[id(c)] = n
+
+        def list_read_kind(n):
+            """how a list-typed field is consumed: element by constant index, as a truth value / length, or whole"""
+            p = parent.get(id(n))
+            if isinstance(p, ast.Subscript) and p.value is n and isinstance(p.slice, ast.Constant):
+                return "index"
+            q, c = p, n
+            while isinstance(q, (ast.BoolOp, ast.UnaryOp)):
+                q, c = parent.get(id(q)), q
+            if isinstance(q, (ast.If, ast.While, ast.IfExp)) and q.test is c:
+                return "test"
+            if isinstance(p, ast.Call) and isinstance(p.func, ast.Name) and p.func.id in ("len", "bool"):
+                return "test"
+            if isinstance(p, ast.Compare):
+                return "test"
+            return "whole"
+
+        stage = self.fn_stage.get(id(fn), "other")
         for n in ast.walk(fn):
             if isinstance(n, ast.Attribute) and isinstance(n.ctx, ast.Load):
                 if id(n) in copies:
@@ -273,6 +306,8 @@ class Analysis:
                 for k, l in typeof(n.value):
                     if not l and n.attr in self.fields.get(k, {}):
                         sink(k, n.attr, "guard" if id(n) in guards else "read")
+                        if self.fields[k][n.attr][1] == "*" and id(n) not in guards:
+                            self.list_reads.add((stage, k, n.attr, list_read_kind(n)))
             elif isinstance(n, ast.Match):
                 self._match_reads(n, typeof, sink)
             elif isinstance(n, ast.Call):
@@ -607,6 +642,7 @@ def extract(repo_root: str):
         "forwards": sorted(a.forwards),
         "generic": sorted(set(a.generic)),
         "records": a.records(),
+        "list_reads": sorted(a.list_reads),
     }
 
 
@@ -615,7 +651,7 @@ if __name__ == "__main__":
     import sys
 
     r = extract(sys.argv[1] if len(sys.argv) > 1 else "/repo")
-    for k in ("visits", "reads", "forwards", "generic", "records"):
+    for k in ("visits", "reads", "forwards", "generic", "records", "list_reads"):
         print(k)
         for row in r[k]:
             print("  ", row)
